@@ -200,3 +200,7 @@ mod test {
         assert_eq!(cost.cost(1, 1), 3);
     }
 }
+
+// verification hook: harness text lives outside the repository (see MANIFEST.hooks)
+#[cfg(any(kani, sudachi_verif))]
+include!(concat!(env!("SUDACHI_VERIF_DIR"), "/dic__build__conn.rs"));
